@@ -45,6 +45,16 @@ CHECKS = {
          "Kernel-checked for every string and every integer parameter: $substring is the code-point slice with negative starts from the end, $length($pad(s,n)) = max(|n|, $length(s)) with padding on the correct side, before & c & after = s when c occurs and both return s otherwise, the separator found is the first occurrence, $join($split(s,c),c) = s including the empty separator, limits truncate, $trim leaves no outer whitespace. "
          "Tied to /repo by all strings up to length 2 (quick) / 3 (thorough) over an alphabet of ASCII, 2-, 3- and 4-byte characters, whitespace and separators with parameter grids -5..5 (incl. fractional) and pad/separator strings of length 0..3, random longer strings, and the laws evaluated as JSONata equalities that must be true.",
          "DESIGN.md section 6 C16", "strings.Index/Split/Replace, utf8.RuneCountInString, unicode case mapping (ASCII and Latin-1 in the model), base64 and net/url are standard-library parameters: their round trips are checked on the implementation, the Lean theorem states the contract explicitly."),
+ "C04": ("Lean 4 model of the Pratt parser (binding-power table, nud/led dispatch, left/right associativity loop) + regenerated table obligations (symbols, binding powers, nud/led sets, loop condition) + theorems on the loop's grouping + parse correspondence: Go parse tree = Lean parse tree on generated and printed-back programs, with an independent precedence/associativity oracle",
+         "Kernel-checked: the binding-power table is strictly layered as the property lists it (decide over the regenerated bps rows), the operator loop groups a tighter operator under a looser one, equal-power operators to the left and the right-associative forms to the right (theorems about ledLoop for arbitrary operand parsers), parentheses yield a block that cannot be re-associated, negative literals fold. PARTIAL: parse(print(t)) = t for every tree is not proved as a theorem (the parser model is fuel-recursive over token lists; DESIGN.md section 6 C04 says what is missing); it is carried by the correspondence: random trees over every binary operator pair, printed with minimal parentheses by an independent printer, must parse (in Go and in the Lean model) to the tree they were printed from, and String() must be a fixpoint of parse.",
+         "DESIGN.md section 6 C04", "The round-trip half of C04 rests on the correspondence (differential testing), not on a theorem."),
+ "C08": ("Lean 4 model of the lexer and parser error paths: UTF-8 decoder width theorem, lexer position invariant (0 <= start <= pos <= len, never past the end), backup idempotence, bracket matcher length bound, strict hex escapes; regenerated facts (token/error enums, whitespace set, parseRune call); + parse correspondence on arbitrary byte strings (status, error kind, tree)",
+         "Kernel-checked: the decoder consumes 1..4 bytes and never more than remain, every lexer primitive preserves the position invariant so no slice expression can leave the input, backup cannot move before the token start, the bracket matcher returns a prefix of its input and reports unbalanced input, hex escapes accept exactly four hex digits; decide-checked facts: the parser's error kinds are the documented enum and the lexer's token set matches the model. "
+         "Tied to /repo by running Go's Compile (under recover and a wall-clock limit) and the Lean lexer+parser on random bytes, invalid UTF-8, mutated valid programs, truncated programs, unbalanced brackets/quotes/signatures, numeric overflow spellings: a panic, a timeout, or a different status/error kind/tree is a violation.",
+         "DESIGN.md section 6 C08", "Regular-expression validity is decided by Go's regexp engine (a parameter): cases Go rejects with ErrInvalidRegex are skipped by the comparison. For invalid UTF-8 only the status is compared (Go replaces bytes by U+FFFD inside strings)."),
+ "C11": ("Lean 4 theorems: escape-free strings denote themselves (induction), each JSON escape / \\uXXXX / surrogate pair denotes its character and malformed ones are errors, literal nodes evaluate to themselves on every input, array constructors keep nested constructors and non-array members as units; regenerated escape table; + correspondence with encoding/json on generated JSON texts",
+         "Kernel-checked: unescape is the identity on strings without backslash (all lengths), maps each escape to its character, decodes surrogate pairs and rejects unpaired/malformed escapes; string/number/boolean/null nodes evaluate to themselves whatever the input; array constructors do not flatten nested constructors nor collapse singletons; an object constructor with a literal key yields that member. PARTIAL: that the parser maps every JSON text to the corresponding tree and that number literals are read as the nearest double are carried by the correspondence: generated JSON texts (all escapes, astral characters, deep nesting, empty containers, duplicate-free keys, number spellings with exponents) are compiled and evaluated by /repo and by the Lean lexer/parser/evaluator and compared with encoding/json's decoding.",
+         "DESIGN.md section 6 C11", "strconv.ParseFloat is modelled by an exact-rational nearest-even conversion (Model/Decimal.lean), validated by the correspondence."),
  "C05": ("Lean 4 world model (history independence, tree unchanged) + regenerated write-set obligations (every field/element write of the evaluator packages is on an accounted allow-list; per-call copy of built-ins; chain builds a fresh call) + history correspondence with AST deep comparison through the verif hook",
          "Kernel-checked: in the model an evaluation is a function of (tree, input): outcomes are independent of any history and the tree is unchanged. The tie to the source is (a) decide-checked obligations over the regenerated write set: every statement writing through a field, element or pointer in eval/callable/env/jsonata/jlib must be on the allow-list (none targets a syntax-tree node, the name/context setters run on a per-call copy made before them, the chain operator builds a new call node, each Eval makes a new environment), and (b) histories of 2..5 Evals on one Expr with other expressions in between, comparing every outcome with a freshly compiled Expr, String() and the parsed tree (verif accessor) before/after.",
          "DESIGN.md section 6 C05", "The write-set extractor is syntactic (go/ast): it lists assignments and inc/dec whose target is a selector, index or dereference; writes through reflect or method calls are covered by the mutator list of C07."),
